@@ -1,7 +1,7 @@
 (* Correspondence cases for C14: what the generated Go readers/writers and compress/lz4.go did on a given
    byte string, replayed through the model. *)
 From Coq Require Import ZArith List Bool.
-From SH Require Import Common.Wrap Common.Corr TL.Model Gen.TLSchema.
+From SH Require Import Common.Wrap Common.Corr TL.Model TL.Model2 Gen.TLSchema.
 Import ListNotations.
 Open Scope Z_scope.
 
@@ -19,6 +19,9 @@ Inductive case :=
 (* same, but the object Go decoded was not written back as the bytes it was read from (a dictionary with
    unsorted or repeated keys: the Go value is a map); the bytes written must then be a canonical encoding *)
 | CReadNorm (tid : nat) (boxed : bool) (input : bytes) (n : Z) (rewritten : bytes)
+(* ReadTL2 of schema item [tid] on [input]: None = error, Some (remaining length, what WriteTL2 of the object
+   just read produced) *)
+| CRead2 (tid : nat) (input : bytes) (o : option (Z * bytes))
 (* CompressAndFrame data = frame, where lz4.CompressBlockHC returned c *)
 | CFrameC (data c frame : bytes)
 (* DeFrame frame: Some (original size, length of the compressed data) *)
@@ -50,6 +53,20 @@ Definition ok (c : case) : bool :=
           | _ => false
           end
       | None => false
+      end
+  | CRead2 tid input o =>
+      let d := snd (nth tid schema (0, DStruct [])) in
+      match dec2 d input, o with
+      | None, None => true
+      | Some (v, rest), Some (n, rewritten) =>
+          (zlen rest =? n) &&
+          (if wf2 d v then bytes_eqb (enc2 d v) rewritten
+           else (* a dictionary with unsorted or repeated keys (Go map): what Go wrote must be canonical *)
+             match dec2 d rewritten with
+             | Some (v', []) => bytes_eqb (enc2 d v') rewritten && wf2 d v'
+             | _ => false
+             end)
+      | _, _ => false
       end
   | CFrameC data c frame => bytes_eqb (compress_and_frame (fun _ => c) data) frame
   | CDeframe frame o =>
